@@ -444,6 +444,47 @@ let handle_semt fields =
     end
   | _ -> raise (Parse "bad semt line")
 
+
+(* ---------- family: semw (declared types, C09) ---------- *)
+let skind_of_string = function
+  | "angle" -> Declared.KAngle | "bit" -> Declared.KBit | "bool" -> Declared.KBool | "complex" -> Declared.KComplex
+  | "duration" -> Declared.KDuration | "float" -> Declared.KFloat | "int" -> Declared.KInt
+  | "stretch" -> Declared.KStretch | "uint" -> Declared.KUInt | "qubit" -> Declared.KQubit
+  | s -> raise (Parse ("kind " ^ s))
+let desig_of_string s =
+  match split_on ':' s with
+  | ["none"] -> Declared.DNone | ["lit"; n] -> Declared.DLitInt (n_of_string n) | ["litother"] -> Declared.DLitOther
+  | ["constcast"; n] -> Declared.DConstCastInt (n_of_string n) | ["constother"] -> Declared.DConstOther
+  | ["nonconst"] -> Declared.DNonConst | _ -> raise (Parse ("designator " ^ s))
+let ddiag_str = function
+  | Declared.NoDiag -> "None" | Declared.ConstIntegerError -> "ConstIntegerError"
+  | Declared.InvalidDesignatorError -> "InvalidDesignatorError"
+let handle_semw fields =
+  match fields with
+  | [kind; form; c; impl; orc] ->
+    let input = kind ^ " | " ^ form ^ " | " ^ c in
+    count_case input (form <> "none"); sample "semw" input impl;
+    if is_prefix "PANIC" impl then (if orc <> "ok" then oracle_fail "semw" input orc)
+    else begin
+      let k = skind_of_string kind and d = desig_of_string form and cc = (c = "1") in
+      let (t, e) = Declared.declared_type k d cc in
+      let m = "type=" ^ enc_ty t ^ ";diag=" ^ ddiag_str e in
+      if m <> impl then mismatch "semw" input impl m;
+      (* C09 on the implementation: recorded width = written width, or diagnosed *)
+      let ity = ty_of_string (field "type" impl) and idiag = field "diag" impl in
+      (match Declared.written_width d with
+       | Some w ->
+         if idiag = "None" && Declared.type_width k ity <> w then
+           oracle_fail "semw" input ("FAIL C09: recorded type " ^ field "type" impl ^ " does not carry the written width and nothing is diagnosed")
+       | None ->
+         if idiag = "None" then begin
+           if Declared.k_nonconst_designator d then known_hit "semw" "C09.nonconst_designator" input
+           else oracle_fail "semw" input "FAIL C09: a designator that is not a constant integer is not diagnosed"
+         end);
+      if orc <> "ok" then oracle_fail "semw" input orc
+    end
+  | _ -> raise (Parse "bad semw line")
+
 (* ---------- main loop ---------- *)
 let () =
   Array.iter (fun a -> if a = "--nodedupe" then dedupe := false) Sys.argv;
@@ -462,6 +503,7 @@ let () =
              | "pk" -> handle_pk fields
              | "tree" -> handle_tree fields
              | "semt" -> handle_semt fields
+             | "semw" -> handle_semw fields
              | _ -> raise (Parse ("unknown family " ^ fam)))
           with Parse m -> report "DRIVER-ERROR" [m; line]; incr mismatches)
        | [] -> ()
